@@ -33,9 +33,44 @@ func (d *ViperBinder) SetConfig(c []byte) error {
 
 func (d *ViperBinder) Get(path string) any {
 	if path == "" {
-		return d.Viper.AllSettings()
+		return cloneValue(d.Viper.AllSettings())
 	}
-	return d.Viper.Get(path)
+	return cloneValue(d.Viper.Get(path))
+}
+
+// cloneValue copies the maps and lists of a configuration value, so that a
+// caller editing what it was given does not edit the configuration itself
+func cloneValue(val any) any {
+	switch v := val.(type) {
+	case map[string]any:
+		if v == nil {
+			return val
+		}
+		m := make(map[string]any, len(v))
+		for k, e := range v {
+			m[k] = cloneValue(e)
+		}
+		return m
+	case map[any]any:
+		if v == nil {
+			return val
+		}
+		m := make(map[any]any, len(v))
+		for k, e := range v {
+			m[k] = cloneValue(e)
+		}
+		return m
+	case []any:
+		if v == nil {
+			return val
+		}
+		l := make([]any, len(v))
+		for i, e := range v {
+			l[i] = cloneValue(e)
+		}
+		return l
+	}
+	return val
 }
 
 func (d *ViperBinder) Set(path string, val any) {
